@@ -295,10 +295,61 @@ class SStr:
     def split(self, sep=None, maxsplit=-1):
         if sep is None:
             c = self.concrete()
-            if c is None:
-                raise Undecided('split() on whitespace of a symbolic string')
-            return [SStr([x]) for x in c.split(None, maxsplit)]
+            if c is not None:
+                return [SStr([x]) for x in c.split(None, maxsplit)]
+            return self._split_ws(maxsplit)
         return self._cut(lift(sep).concrete(), maxsplit)
+
+    def _split_ws(self, maxsplit):
+        """str.split(None, maxsplit): fields are separated by runs of whitespace; the runs must lie in literal
+        pieces, the other pieces must be whitespace-free (and a field must not be possibly empty)"""
+        limit = maxsplit if (maxsplit is not None and maxsplit >= 0) else None
+        ws_any = L('.*[\\s].*')
+        ws_start = L('[\\s].*')
+        fields, cur = [], []
+        parts = list(self.parts)
+        i = 0
+        seen_text = False
+        while i < len(parts):
+            p = parts[i]
+            if limit is not None and len(fields) >= limit and (cur or not isinstance(p, str) or p.lstrip() != ''):
+                # remainder: leading whitespace is dropped, the rest is kept as it is
+                rest = parts[i:]
+                if not cur and isinstance(rest[0], str):
+                    rest[0] = rest[0].lstrip()
+                elif not cur and not rest[0].lang.intersect(ws_start).is_empty():
+                    raise Undecided('the remainder %r may start with whitespace' % (rest[0],))
+                cur.extend(rest)
+                break
+            if isinstance(p, str):
+                j = 0
+                while j < len(p) and not p[j].isspace():
+                    j += 1
+                if j:
+                    cur.append(p[:j])
+                    seen_text = True
+                if j < len(p):
+                    if cur:
+                        fields.append(SStr(cur))
+                        cur = []
+                    k = j
+                    while k < len(p) and p[k].isspace():
+                        k += 1
+                    parts[i] = p[k:]
+                    if parts[i]:
+                        continue
+            else:
+                if not p.lang.intersect(ws_any).is_empty():
+                    raise Undecided('the piece %r may contain whitespace' % (p,))
+                if not p.lang.intersect(lit_lang('')).is_empty() and not cur:
+                    raise Undecided('the piece %r may be empty' % (p,))
+                cur.append(p)
+                seen_text = True
+            i += 1
+        if cur:
+            fields.append(SStr(cur))
+        _ = seen_text
+        return fields
 
     def rsplit(self, sep=None, maxsplit=-1):
         if sep is None:
@@ -361,19 +412,61 @@ class SStr:
         if c is not None:
             return SStr([getattr(c, name)(cs)])
         cls_ = '[' + ''.join(re.escape(ch) for ch in cs) + ']'
-        lang = self.lang()
-        hit_l = left and not lang.intersect(L(cls_ + '.*')).is_empty()
-        hit_r = right and not lang.intersect(L('.*' + cls_)).is_empty()
-        if not hit_l and not hit_r:
-            return self
-        # strip the literal ends, keep the rest opaque
-        img = lang
-        if right:
-            from . import strlang
-            img = strlang.rstrip_lang(img, cs)
-        if left:
-            img = _lstrip_lang(img, cs)
-        return SStr([Fn(name, self, img, (chars,) if chars is not None else ())])
+        only = L(cls_ + '*')
+        parts = list(self.parts)
+        extra = (chars,) if chars is not None else ()
+
+        def peel(from_right):
+            while parts:
+                p = parts[-1] if from_right else parts[0]
+                if isinstance(p, str):
+                    q = p.rstrip(cs) if from_right else p.lstrip(cs)
+                    if q:
+                        parts[-1 if from_right else 0] = q
+                        return
+                    parts.pop(-1 if from_right else 0)
+                    continue
+                edge = L('.*' + cls_) if from_right else L(cls_ + '.*')
+                if p.lang.intersect(edge).is_empty() and p.lang.intersect(lit_lang('')).is_empty():
+                    return                                  # never starts/ends with a stripped character, never empty
+                if p.lang.not_subset_witness(only) is None:
+                    parts.pop(-1 if from_right else 0)      # consists of stripped characters only
+                    continue
+                if p.lang.intersect(edge).is_empty() and len(parts) == 1:
+                    return
+                if not p.lang.intersect(only).is_empty():
+                    raise Undecided('%s: the piece %r may consist of stripped characters only' % (name, p))
+                img = p.lang
+                if from_right:
+                    from . import strlang
+                    img = strlang.rstrip_lang(img, cs)
+                else:
+                    img = _lstrip_lang(img, cs)
+                parts[-1 if from_right else 0] = Fn('rstrip' if from_right else 'lstrip', SStr([p]), img, extra)
+                return
+        try:
+            if right:
+                peel(True)
+            if left:
+                peel(False)
+        except Undecided:
+            # opaque application to the whole term (always sound; structure is lost)
+            img = self.lang()
+            if right:
+                from . import strlang
+                img = strlang.rstrip_lang(img, cs)
+            if left:
+                img = _lstrip_lang(img, cs)
+            return SStr([Fn(name, self, img, extra)])
+        # lstrip(rstrip(X)) of the same piece is strip(X)
+        out = []
+        for p in parts:
+            if isinstance(p, Fn) and p.name == 'lstrip' and len(p.arg.parts) == 1 and isinstance(p.arg.parts[0], Fn) and p.arg.parts[0].name == 'rstrip' \
+                    and p.arg.parts[0].extra == p.extra:
+                inner = p.arg.parts[0]
+                p = Fn('strip', inner.arg, p.lang, p.extra)
+            out.append(p)
+        return SStr(out)
 
     def lstrip(self, chars=None):
         return self.strip(chars, True, False)
